@@ -311,6 +311,8 @@ impl ReadableStorageTraits for FilesystemStore {
     fn size_key(&self, key: &StoreKey) -> Result<Option<u64>, StorageError> {
         // Hold the read lock: a concurrent set truncates the file before writing it
         let file = self.get_file_mutex(key);
+        #[cfg(zarrs_verif)]
+        zarrs_storage::verif_hooks::emit("fs.size.lock", &[]);
         let _lock = file.read();
         let key_path = self.key_to_fspath(key);
         std::fs::metadata(key_path).map_or_else(|_| Ok(None), |metadata| Ok(Some(metadata.len())))
